@@ -349,6 +349,17 @@ class ThreadingApplication(Application):
                     self._thread_slots.get(block=False)
                 except queue.Empty:
                     pass
+                # ... and answer it, as when no slot is free
+                try:
+                    answer = self.generate_answer(
+                        recv_message,
+                        result_code=constants.E_RESULT_CODE_DIAMETER_TOO_BUSY,
+                        error_message="Insufficient resources to handle the request")
+                    self.send_answer(answer)
+                except Exception as e2:
+                    logger.warning(
+                        f"{self} failed to reject message "
+                        f"{hex(recv_message.header.hop_by_hop_identifier)}: {e2}")
 
     def _wait_for_resp_msg(self, _thread):
         while True:
